@@ -20,7 +20,7 @@ import termios
 import time
 import zlib
 
-from common import CICADA_BIN, PUP_BIN, HarnessError
+from common import CICADA_BIN, PUP_BIN, HarnessError, reset_signal_state
 
 WATCHDOG = float(os.environ.get("VERIF_WATCHDOG", "30"))
 TLEN = 4093
@@ -440,7 +440,7 @@ class Sim:
                             os.close(fd)
                 # nothing else may be inherited
                 os.closerange(3, 1024)
-                signal.signal(signal.SIGPIPE, signal.SIG_DFL)
+                reset_signal_state()
                 os.execve(CICADA_BIN, [CICADA_BIN] + argv, env)
             finally:
                 os._exit(127)
